@@ -220,4 +220,45 @@ theorem convertDict_drop {d : Json} {v : Int} (ms : List Mapping) (hv : docVersi
     convertDict d ms = runSteps (ms.drop (v - 1).toNat) d := by
   rw [convertDict_of_version ms hv, pySliceFrom_nonneg (by omega)]
 
+/-! ### the Bool equality used by the executable laws is sound -/
+
+mutual
+theorem Json.beq_sound : ∀ (a b : Json), Json.beq a b = true → a = b
+  | .null, b, h => by cases b <;> simp [Json.beq] at h ⊢
+  | .bool x, b, h => by cases b <;> simp [Json.beq] at h ⊢; exact h
+  | .int x, b, h => by cases b <;> simp [Json.beq] at h ⊢; exact h
+  | .str x, b, h => by cases b <;> simp [Json.beq] at h ⊢; exact h
+  | .list xs, b, h => by
+    cases b with
+    | list ys => simp only [Json.beq] at h; rw [Json.beqList_sound xs ys h]
+    | _ => simp [Json.beq] at h
+  | .obj xs, b, h => by
+    cases b with
+    | obj ys => simp only [Json.beq] at h; rw [Json.beqObj_sound xs ys h]
+    | _ => simp [Json.beq] at h
+theorem Json.beqList_sound : ∀ (a b : List Json), Json.beqList a b = true → a = b
+  | [], b, h => by cases b <;> simp [Json.beqList] at h ⊢
+  | x :: xs, b, h => by
+    cases b with
+    | nil => simp [Json.beqList] at h
+    | cons y ys =>
+      simp only [Json.beqList, Bool.and_eq_true] at h
+      rw [Json.beq_sound x y h.1, Json.beqList_sound xs ys h.2]
+theorem Json.beqObj_sound : ∀ (a b : List (String × Json)), Json.beqObj a b = true → a = b
+  | [], b, h => by cases b <;> simp [Json.beqObj] at h ⊢
+  | (k, x) :: xs, b, h => by
+    cases b with
+    | nil => simp [Json.beqObj] at h
+    | cons p ys =>
+      obtain ⟨k', y⟩ := p
+      simp only [Json.beqObj, Bool.and_eq_true, beq_iff_eq] at h
+      rw [h.1.1, Json.beq_sound x y h.1.2, Json.beqObj_sound xs ys h.2]
+end
+
+theorem sameResult_sound {a b : R Json} (h : sameResult a b = true) : a = b := by
+  cases a <;> cases b <;> simp only [sameResult] at h
+  · rw [eq_of_beq h]
+  · cases h
+  · cases h
+  · rw [Json.beq_sound _ _ h]
 end Typedpy.Convert
